@@ -19,6 +19,64 @@ COMMON_ASSUMPTIONS = [
 
 EXTRA_OVERLAY = {}
 
+import os, re, subprocess
+
+
+def _methods(gosym, repo, pkg, typ):
+    r = subprocess.run([gosym, "methods", "-repo", repo, "-pkg", pkg, "-type", typ], capture_output=True, text=True)
+    out = []
+    for line in r.stdout.splitlines():
+        if "\t" in line:
+            n, sig = line.split("\t", 1)
+            out.append((n, sig))
+    return out
+
+
+def gen_C02(repo, gendir, gosym):
+    """One dispatch harness over every generated (Try)?(U|S|F)<n>(LE|BE)? method of decode.D,
+    enumerated from go/types of the current tree."""
+    ms = _methods(gosym, repo, "pkg/decode", "D")
+    cases_i, cases_f = [], []
+    for name, sig in ms:
+        m = re.fullmatch(r"(Try)?(U|S|F)(\d+)(LE|BE)?", name)
+        if not m:
+            continue
+        tr, kind, n, e = m.group(1), m.group(2), int(m.group(3)), m.group(4)
+        fixed = {"LE": 1, "BE": 0, None: -1}[e]
+        if kind in "US":
+            if (tr and sig not in ("func() (uint64, error)", "func() (int64, error)")) or (not tr and sig not in ("func() uint64", "func() int64")):
+                continue
+            signed = "true" if kind == "S" else "false"
+            call = "d.%s" % name if tr else ("zzPanicU(d.%s)" % name if kind == "U" else "zzPanicS(d.%s)" % name)
+            if kind == "U":
+                cases_i.append("zzCheckInt(d, buf, pos, %d, %d, false, %s, nil) // %s" % (n, fixed, call, name))
+            else:
+                cases_i.append("zzCheckInt(d, buf, pos, %d, %d, true, nil, %s) // %s" % (n, fixed, call, name))
+        else:
+            if (tr and sig != "func() (float64, error)") or (not tr and sig != "func() float64"):
+                continue
+            call = "d.%s" % name if tr else "zzPanicF(d.%s)" % name
+            cases_f.append("zzCheckFloat(d, buf, pos, %d, %d, %s) // %s" % (n, fixed, call, name))
+    def emit(fname, cases, nbytes, positions):
+        src = ["// generated from go/types of the current tree on every run; do not edit", "package decode", "",
+               'import vrt "github.com/wader/fq/internal/zzvrt"', "", "func %s() {" % fname,
+               "\tbuf := vrt.Bytes(\"buf\", %d)" % nbytes,
+               "\tpos := int64(%s)" % positions,
+               "\tendian := Endian(vrt.Choice(\"endian\", 2))",
+               "\td := zzD(buf, endian, pos)",
+               "\tswitch vrt.Choice(\"method\", %d) {" % len(cases)]
+        for i, c in enumerate(cases):
+            src.append("\tcase %d:\n\t\t%s" % (i, c))
+        src += ["\t}", "}", ""]
+        return "\n".join(src)
+    d = os.path.join(gendir, "pkg", "decode")
+    os.makedirs(d, exist_ok=True)
+    open(os.path.join(d, "gen_int.go"), "w").write(
+        emit("VerifGenInt", cases_i, 10, "[]int{0, 3, 7}[vrt.Choice(\"posIdx\", 3)]") + "\n" +
+        emit("VerifGenIntAllPos", cases_i, 10, "vrt.IntRange(\"pos\", 0, 17)").split("\n", 5)[5] + "\n" +
+        emit("VerifGenFloat", cases_f, 12, "[]int{0, 5}[vrt.Choice(\"posIdx\", 2)]").split("\n", 5)[5])
+    return {"int_methods": len(cases_i), "float_methods": len(cases_f)}
+
 PROPS = {}
 
 PROPS["C01"] = {
@@ -70,4 +128,37 @@ PROPS["C01"] = {
         "negative read offsets are outside the claim (as for io.ReaderAt)",
     ],
     "outside": ["ctxreadseeker (goroutine pass-through)", "OS files (bytes.Reader stands in)", "buffers beyond the stated sizes", "cache blocks > 4 bytes", "IOReadSeeker.Seek(SeekEnd) on a source whose length is not a multiple of 8"],
+}
+
+
+PROPS["C02"] = {
+    "level": "model_checking",
+    "gen": gen_C02,
+    "explanation": "bounded symbolic execution of the decode library's scalar readers over symbolic buffers at every bit alignment, against bit-loop references; every generated (Try)?(U|S|F)<n>(LE|BE)? method is enumerated from go/types of the current tree and checked for the width and byte order its name promises",
+    "wall_quick": 1200, "wall_thorough": 7200,
+    "harnesses": [
+        {"entry": "pkg/decode.VerifUSKernel", "clause": "tryUEndian/trySEndian for every width 1..64, both byte orders, unsigned and two's complement", "bounds": {"buffer_bytes": 10, "pos": "0..23", "nBits": "1..64"}},
+        {"entry": "pkg/decode.VerifUSTail", "clause": "error iff not enough bits (buffer tail)", "bounds": {"buffer_bytes": 3, "pos": "0..24", "nBits": "1..32"}},
+        {"entry": "pkg/decode.VerifReverseBytes64", "clause": "ReverseBytes64 vs byte loop for widths 1..64", "bounds": {"v": "any value < 2^nBits"}},
+        {"entry": "pkg/decode.VerifGenInt", "group": "genint", "clause": "every generated integer reader method (enumerated from go/types): value, width, byte order, advance, error iff short", "bounds": {"buffer_bytes": 10, "pos": "0,3,7"}},
+        {"entry": "pkg/decode.VerifGenIntAllPos", "group": "genint", "tier": "thorough", "clause": "generated integer readers at every position 0..17", "bounds": {"pos": "0..17"}},
+        {"entry": "pkg/decode.VerifGenFloat", "clause": "every generated float reader method is wired to the kernel with its width and byte order", "bounds": {"buffer_bytes": 12, "pos": "0,5"}},
+        {"entry": "pkg/decode.VerifBigInt", "group": "bigint", "clause": "tryBigIntEndianSign: every bit of the result equals the input bit; two's complement sign", "bounds": {"widths": "1,7,8,9,63,64,65,72,127,128,129", "pos": "0..7"}},
+        {"entry": "pkg/decode.VerifBigIntWide", "group": "bigint", "tier": "thorough", "clause": "big integers, every width 1..136", "bounds": {"widths": "1..136"}},
+        {"entry": "pkg/decode.VerifFloat16", "clause": "binary16 -> float64 exact for all 2^16 patterns (SMT to_fp as reference)", "bounds": {"patterns": "all 65536"}},
+        {"entry": "pkg/decode.VerifFloat3264", "clause": "binary32/64 readers are bit casts", "bounds": {"pos": "0..7"}},
+        {"entry": "pkg/decode.VerifFloat80", "clause": "x87 80-bit -> float64: exact where representable, infinity above and zero below the binary64 range, NaN stays NaN, else one of the two neighbouring doubles", "bounds": {"patterns": "all 2^80; unnormals and the binary64 subnormal range are outside the claim"}},
+        {"entry": "pkg/decode.VerifFixedPoint", "clause": "fixed point = integer / 2^fraction", "bounds": {"kinds": "16.8 32.16 64.32 16.14 32.30"}},
+        {"entry": "pkg/decode.VerifULEB128", "clause": "ULEB128 value; overflow or truncation is an error, never a wrapped value", "bounds": {"bytes": 11}},
+        {"entry": "pkg/decode.VerifSLEB128", "clause": "SLEB128 value with sign extension", "bounds": {"bytes": 11}},
+        {"entry": "pkg/decode.VerifUnaryBool", "clause": "unary code and bool", "bounds": {"buffer_bytes": 3, "pos": "0..9"}},
+        {"entry": "pkg/decode.VerifText", "clause": "fixed / null terminated / null padded / length prefixed text: byte range and position arithmetic", "bounds": {"buffer_bytes": 6, "declared_length": "0..7"}},
+    ],
+    "assumptions": [
+        "little endian is checked at whole-byte widths only (as the property states)",
+        "text decoding is the identity (x/text Decoder.String stubbed): ASCII only, transcoding outside the claim",
+        "the shared read buffer holds arbitrary symbolic garbage before every read (results must not depend on it)",
+        "ULEB128 encodings that use the tenth byte may be rejected (fq rejects values >= 2^63): an error, not a wrong value",
+    ],
+    "outside": ["UTF-8/UTF-16 transcoding", "big integers > 136 bits", "Field*/Scalar* wrappers (tree bookkeeping is C03)", "float80 unnormals and results in the binary64 subnormal range"],
 }
